@@ -239,6 +239,25 @@ class Server:
     def alive(self):
         return self.proc is not None and self.proc.poll() is None
 
+    def settle(self, timeout=4.0):
+        """After a connection broke: a panicking child keeps running while it prints its backtrace (a second or
+        more in a debug build). Wait until it has exited or answers a connect again. Returns alive()."""
+        end = time.monotonic() + timeout
+        while time.monotonic() < end:
+            if self.proc is None or self.proc.poll() is not None:
+                return False
+            try:
+                s = socket.create_connection(("127.0.0.1", self.port), timeout=0.3)
+                s.close()
+                # it accepts: alive as far as one can tell - but a dying process may still hold the socket
+                time.sleep(0.15)
+                if self.proc.poll() is None and time.monotonic() + 0.5 < end:
+                    end = min(end, time.monotonic() + 0.8)
+            except OSError:
+                pass
+            time.sleep(0.05)
+        return self.alive()
+
     def expect_exit(self):
         """The harness is about to make the child exit on purpose (abort point, SHUTDOWN)."""
         if self.proc is not None:
@@ -288,6 +307,17 @@ class Server:
             return ""
 
     def cleanup(self):
+        # a child that no longer accepts connections is on its way out by itself (a panic printing its backtrace):
+        # let it finish, so that the exit status and the log say what happened - a post-mortem may want to know
+        if self.alive() and getattr(self, "_served", None) == self.proc.pid:
+            try:
+                s = socket.create_connection(("127.0.0.1", self.port), timeout=0.3)
+                s.close()
+            except OSError:
+                try:
+                    self.proc.wait(timeout=4)
+                except subprocess.TimeoutExpired:
+                    pass
         self.kill()
         if self.own_dir:
             shutil.rmtree(self.dir, ignore_errors=True)
